@@ -9,7 +9,10 @@ def _c04_case(c):
     return {"raw": c[:2000]}
 
 
+import copyvm as _copyvm
+
 CONFIG = {
+    "post_model": _copyvm.vm_sample("GC04"),
     "properties_file": "Properties/C04.v",
     "proof_files": ["Base/Prelude.v", "Proofs/CopySpec.v", "Proofs/CopyAcct.v", "Proofs/CopyOpt.v"],
     "model_files": ["Generated/GC04.v", "Model/CopySpec.v", "Model/CopyTop.v", "Model/CopyOpt.v"],
